@@ -307,6 +307,7 @@ func genWire() {
 	genWireColDef(lf, menv)
 	genWireExecute(lf, menv)
 	genWireDescribe(lf)
+	genWirePgInts(lf)
 }
 
 // signedConst evaluates a constant declared as `Name T = -k` or `Name T = k` (the shared evaluator has no unary minus).
